@@ -165,6 +165,38 @@ pub fn double_crash_histories(seed: u64, n: usize) -> RunOut {
     c.out
 }
 
+/// Batches whose bit range straddles byte boundaries of a bitfield page, logged and still unflushed when
+/// the page is rewritten (C07: the page is new up to the cut and old behind it; replay must set all bits
+/// of every logged entry again). Every storage operation of every mutating call gets its torn points.
+pub fn bit_batch_histories(seed: u64, n: usize, mode: Mode) -> RunOut {
+    let mut r = Rng::new(seed);
+    let mut c = Ctx { sim: Sim::new(), out: RunOut { ops: vec![], outs: vec![], stats: BTreeMap::new(), failures: vec![], samples: vec![] }, seen: HashSet::new(), hist_digest: String::new() };
+    for _ in 0..n {
+        c.run(format!("new W {SEED_HEX}"));
+        // a first call that flushes, leaving a page with a few bits
+        let pre = r.range(1, 7);
+        c.run(format!("batch W {}", (0..pre).map(|_| hex(&gen_block(&mut r, false))).collect::<Vec<_>>().join(",")));
+        let calls = r.range(3, 7);
+        for _ in 0..calls {
+            let len = c.sim.h["W"].oracle.len;
+            let line = match r.below(10) {
+                0..=5 => { let k = r.range(3, 14); format!("batch W {}", (0..k).map(|_| hex(&[r.below(256) as u8])).collect::<Vec<_>>().join(",")) }
+                6..=7 => format!("append W {}", hex(&gen_block(&mut r, false))),
+                _ => { let s = r.below(len); format!("clear W {s} {}", r.range(s + 1, (s + 12).min(len))) }
+            };
+            c.run(line);
+            let j: Vec<Op> = c.sim.h["W"].last_journal.clone();
+            if j.iter().any(|op| matches!(op, Op::Write(2, ..))) { *c.out.stats.entry("bitbatch_page_writes".into()).or_insert(0) += 1; }
+            c.crash_points("W", mode, &mut r, 10);
+        }
+        c.run("probe W".into());
+        c.run("reopen W".into());
+        c.run("probe W".into());
+        c.end_history();
+    }
+    c.out
+}
+
 const ALPHABET: [&str; 10] = ["append W -", "append W 61", "append W 626364", "batch W ~", "batch W 78,797a", "clear W 0 1", "clear W LAST LAST3", "clear W MID MID1", "reopen W", "get W LEN"];
 
 /// Bounded-exhaustive: every sequence of `depth` symbols of the alphabet, full probe after each step.
@@ -563,6 +595,23 @@ pub fn adversarial_histories(seed: u64, n: usize, max_len: u64, requests_only: b
                     *c.out.stats.entry(format!("req_{}", o.split(' ').take(2).collect::<Vec<_>>().join("_").chars().take(12).collect::<String>())).or_insert(0) += 1;
                     if o.starts_with("ok fork") && name == "W" { let t = crate::sim::proof_full_txt(c.sim.proof.as_ref().unwrap()); c.sim.proof_honest = false; c.run(format!("applyp R {t}")); }
                 }
+                // request tuples whose fields are all inside the log but need not fit each other: any tree
+                // node for the hash, any byte for the seek, any upgrade window (the hash node may lie left
+                // of the window, straddle its start or its end, the seek target may lie in another subtree)
+                if wl > 0 {
+                    let total: u64 = c.sim.h["W"].oracle.blocks.iter().map(|b| b.len() as u64).sum();
+                    for _ in 0..6 {
+                        let us = r.below(wl); let ul = r.range(1, wl - us);
+                        let u = if r.chance(1, 5) { "-".to_string() } else { format!("{us}:{ul}") };
+                        let h = if r.chance(1, 4) { "-".to_string() } else { format!("{}:{}", r.below(2 * wl), if r.chance(2, 3) { 0 } else { r.below(4) }) };
+                        let b = if h == "-" && r.chance(1, 2) { format!("{}:{}", r.below(wl), r.below(4)) } else { "-".to_string() };
+                        let s = if r.chance(1, 4) { "-".to_string() } else { format!("{}", r.below(total + 2)) };
+                        if b == "-" && h == "-" && s == "-" && u == "-" { continue; }
+                        let o = c.run(format!("prove W {b} {h} {s} {u}"));
+                        *c.out.stats.entry(format!("mixreq_{}", o.split(' ').take(2).collect::<Vec<_>>().join("_").chars().take(12).collect::<String>())).or_insert(0) += 1;
+                        if o.starts_with("ok fork") { let t = crate::sim::proof_full_txt(c.sim.proof.as_ref().unwrap()); c.sim.proof_honest = false; c.run(format!("applyp R {t}")); }
+                    }
+                }
                 c.run("probe W".into());
                 c.run(format!("append W {}", hex(&gen_block(&mut r, false))));
                 c.run(format!("append X {}", hex(&gen_block(&mut r, false))));
@@ -930,16 +979,77 @@ pub fn backend_sequences(seed: u64, n: usize) -> RunOut {
 // ---------------------------------------------------------------------------------------------
 // storage faults (C10): one I/O error at the k-th storage operation of a call
 
-fn replay_with_fault(prefix: &[String], op: &str, k: usize, plen: u64) -> (String, String, String) {
+fn replay_with_fault(prefix: &[String], op: &str, k: usize, plen: u64) -> (String, String, String) { replay_with_fault_on("W", prefix, op, k, plen) }
+
+fn replay_with_fault_on(name: &str, prefix: &[String], op: &str, k: usize, plen: u64) -> (String, String, String) {
     let mut sim = Sim::new();
     sim.check_oracle = false;
     for l in prefix { sim.exec(l); }
-    sim.exec(&format!("faultnext W {k}"));
+    sim.exec(&format!("faultnext {name} {k}"));
     let res = sim.exec(op);
-    let st = sim.exec("faultstate W");
-    let r2 = sim.exec("reopen W");
-    let probe = if r2.starts_with("ok") { sim.exec(&format!("probeat W {plen}")) } else { format!("reopen:{r2}") };
+    let st = sim.exec(&format!("faultstate {name}"));
+    let r2 = sim.exec(&format!("reopen {name}"));
+    let probe = if r2.starts_with("ok") { sim.exec(&format!("probeat {name} {plen}")) } else { format!("reopen:{r2}") };
     (res, st, probe)
+}
+
+/// Storage faults during proof applications on a replica (C10 over "histories as in C02"): the writer holds a
+/// log, the replica applies honest proofs (upgrade, block, block + upgrade, in random request order, with
+/// growth rounds in between); each application is replayed once per storage operation of the replica with
+/// that operation failing.
+pub fn fault_replica_histories(seed: u64, n: usize) -> RunOut {
+    let mut r = Rng::new(seed);
+    let mut c = Ctx { sim: Sim::new(), out: RunOut { ops: vec![], outs: vec![], stats: BTreeMap::new(), failures: vec![], samples: vec![] }, seen: HashSet::new(), hist_digest: String::new() };
+    for _ in 0..n {
+        let mut lines: Vec<String> = vec![];
+        let mut go = |c: &mut Ctx, lines: &mut Vec<String>, l: String| -> String { lines.push(l.clone()); c.run(l) };
+        go(&mut c, &mut lines, format!("new W {SEED_HEX}"));
+        go(&mut c, &mut lines, "newr R W".into());
+        let wl0 = r.range(1, 7);
+        for _ in 0..wl0 { let b = gen_block(&mut r, false); go(&mut c, &mut lines, format!("append W {}", hex(&b))); }
+        let rounds = r.range(2, 5);
+        for _ in 0..rounds {
+            if r.chance(1, 3) { let b = gen_block(&mut r, false); go(&mut c, &mut lines, format!("append W {}", hex(&b))); }
+            let wl = c.sim.h["W"].oracle.len; let rl = c.sim.h["R"].oracle.len;
+            let up = if rl < wl && (rl == 0 || r.chance(2, 3)) { Some((rl, wl - rl)) } else { None };
+            let horizon = up.map(|(s, l)| s + l).unwrap_or(rl);
+            if horizon == 0 { continue; }
+            let mut blk = "-".to_string();
+            if up.is_none() || r.chance(3, 4) {
+                let cand: Vec<u64> = (0..horizon).filter(|i| !c.sim.h["R"].oracle.has(*i)).collect();
+                if !cand.is_empty() { let i = *r.pick(&cand); let o = go(&mut c, &mut lines, format!("missing R {i}")); blk = format!("{i}:{}", o.strip_prefix("ok ").and_then(|x| x.parse::<u64>().ok()).unwrap_or(0)); }
+            }
+            let ups = up.map(|(s, l)| format!("{s}:{l}")).unwrap_or("-".into());
+            if blk == "-" && ups == "-" { continue; }
+            let o = go(&mut c, &mut lines, format!("prove W {blk} - - {ups}"));
+            if !o.starts_with("ok fork") { continue; }
+            let line = format!("applyp R {}", crate::sim::proof_full_txt(c.sim.proof.as_ref().unwrap()));
+            c.sim.exec("faultnext R 999999999"); c.sim.history.pop();
+            c.run(line.clone());
+            let st = c.sim.exec("faultstate R"); c.sim.history.pop();
+            let kinds: Vec<char> = st.split("kinds=").nth(1).unwrap_or("").chars().collect();
+            let jlen = c.sim.h["R"].last_journal.len();
+            let mut crash_out: Vec<String> = vec![];
+            for j in 0..=jlen { crash_out.push(c.run(format!("crash R {j} 0")).split(" oj=").next().unwrap().to_string()); }
+            let plen = c.sim.h["R"].oracle.len.max(c.sim.h["R"].prev_oracle.len);
+            for k in 0..kinds.len() {
+                let (res, fst, probe) = replay_with_fault_on("R", &lines, &line, k, plen);
+                *c.out.stats.entry(format!("rfault_at_{}", kinds[k])).or_insert(0) += 1;
+                *c.out.stats.entry("fault_points".into()).or_insert(0) += 1;
+                if !fst.starts_with("failed=true") { continue; }
+                let j = kinds[..k].iter().filter(|c| **c == 'w' || **c == 'd' || **c == 't').count();
+                let ctx = format!("`{}` with an I/O error at the replica's storage operation {k} ({}) || history: {}", crate::sim::trunc(&line), kinds[k], crate::sim::trunc(&lines.join(" ; ")));
+                let line_no = c.sim.line;
+                if res.starts_with("ok") { c.out.failures.push(Failure { key: "fault-swallowed".into(), detail: format!("the call returned [{}] although a storage operation failed: {ctx}", crate::sim::trunc(&res)), line: line_no }); }
+                else if res.starts_with("panic") { c.out.failures.push(Failure { key: "fault-panic".into(), detail: format!("the call panicked: {ctx}"), line: line_no }); }
+                let expect = crash_out.get(j).cloned().unwrap_or_default();
+                if probe != expect { c.out.failures.push(Failure { key: "fault-recovery-wrong".into(), detail: format!("after the failed call, drop and reopen shows [{}], expected the state of a crash after {j} storage operations [{}]: {ctx}", crate::sim::trunc(&probe), crate::sim::trunc(&expect)), line: line_no }); }
+            }
+            lines.push(line);
+        }
+        c.end_history();
+    }
+    c.out
 }
 
 pub fn fault_histories(seed: u64, n: usize, max_ops: u64) -> RunOut {
@@ -961,7 +1071,7 @@ pub fn fault_histories(seed: u64, n: usize, max_ops: u64) -> RunOut {
             let mutating = line.starts_with("append") || line.starts_with("batch") || line.starts_with("clear") || line.starts_with("ro ");
             let jlen = if mutating { c.sim.h["W"].last_journal.len() } else { 0 };
             let mut crash_out: Vec<String> = vec![];
-            if mutating { for j in 0..=jlen { crash_out.push(c.run(format!("crash W {j} 0"))); } }
+            if mutating { for j in 0..=jlen { crash_out.push(c.run(format!("crash W {j} 0")).split(" oj=").next().unwrap().to_string()); } }
             let plen = c.sim.h["W"].oracle.len.max(c.sim.h["W"].prev_oracle.len);
             let before_probe = if !mutating { let o = c.sim.exec(&format!("probeat W {plen}")); c.sim.history.pop(); Some(o) } else { None };
             // every fault point
